@@ -971,6 +971,13 @@ func (h *Hist) runHistory(scans int) (bool, string) {
 				h.stats["ev:cordon-after-removals"]++
 			}
 		}
+		if !h.scripted && slowOK && outcome == "ok" && h.r.chance(map[bool]int{true: 75, false: 30}[len(faults) > 0]) {
+			// a second of REAL time passes (everything else here moves the world into the past instead of the clock forward,
+			// which a time kept in memory by the controller does not notice)
+			time.Sleep(1050 * time.Millisecond)
+			h.age(1)
+			h.stats["ev:real-second"]++
+		}
 		if !h.scripted && outcome == "ok" && h.r.chance(30) {
 			// time moves on between scans (the events above move it too, but rarely by little)
 			h.shift([]time.Duration{time.Second, 2 * time.Second, 10 * time.Second, time.Minute, 5 * time.Minute}[h.r.intn(5)])
